@@ -35,6 +35,17 @@ TRUSTED_BASE = [
 ]
 
 
+def modfile_args():
+    """go build flags; when VERIF_REPO names another tree, build against it through an alternate modfile"""
+    if os.path.realpath(REPO) == "/repo":
+        return []
+    alt = os.path.join(HARNESS, ".alt.mod")
+    txt = open(os.path.join(HARNESS, "go.mod")).read().replace("=> /repo", "=> " + os.path.realpath(REPO))
+    open(alt, "w").write(txt)
+    shutil.copyfile(os.path.join(HARNESS, "go.sum"), os.path.join(HARNESS, ".alt.sum"))
+    return ["-modfile=" + alt]
+
+
 def sh(cmd, cwd=None, timeout=None, env=None):
     """run, return (rc, combined output); rc 124 on timeout"""
     try:
@@ -168,7 +179,7 @@ class Check:
     # ---- step 3/4: correspondence ----
     def run_driver(self, seed, tier, replay=None, n=None, tag=""):
         drv = self.cfg["driver"]
-        rc, out = sh(["go", "build", "-tags", "badger verif", "-o", "bin/" + drv, "./drivers/" + drv], cwd=HARNESS, timeout=1500)
+        rc, out = sh(["go", "build"] + modfile_args() + ["-tags", "badger verif", "-o", "bin/" + drv, "./drivers/" + drv], cwd=HARNESS, timeout=1500)
         if rc != 0:
             return {"error": "driver-build", "detail": out[-3000:]}
         rundir = self.rundir + tag
